@@ -51,6 +51,13 @@ static void overlap_cases(Harness &H, const std::string &d0, const Grid<S> &g, c
         if (r1 != ex) H.fail("checkOverlap", std::string("a.checkOverlap(b) = ") + (r1 ? "true" : "false") + ", windows share an interval: " + (ex ? "yes" : "no"));
         if (r2 != ex) H.fail("checkOverlap", std::string("b.checkOverlap(a) = ") + (r2 ? "true" : "false") + ", windows share an interval: " + (ex ? "yes" : "no"));
       }
+      // the same OBJECT as both arguments (anything keyed on &a == &b), and an object against its copy
+      {
+        bool self = sa.checkOverlap(sa), cp = sa.checkOverlap(decltype(sa)(sa)), want = a.nint() > 0;
+        if (self != want || cp != want) H.fail("checkOverlap", std::string("a.checkOverlap(a) = ") + (self ? "true" : "false") + ", a.checkOverlap(copy of a) = " + (cp ? "true" : "false") + " for a spline with " + std::to_string(a.nint()) + " interval(s)");
+        if (!(sa == sa) || (sa != sa)) H.fail("eq-refl", "a == a is false for the same object");
+        if (sa.isZero() != alpha(sa).zero()) H.fail("isZero", "isZero() disagrees with the denoted function");
+      }
       H.cls(std::string("overlap:") + (ex ? "true:" : "false:") + allen(a, b));
       if (a.nint() && b.nint()) H.nontriv();
       H.end();
